@@ -104,6 +104,25 @@ func (s *c20Svc) CreateBook(ctx context.Context, r *testpb.CreateBookRequest) (*
 	return &testpb.Book{Name: r.Parent + "/books/new"}, nil
 }
 
+// the WebSocket binding WEBSOCKET /v1/{name=rooms/*} of testpb.ChatRoom: every message is echoed with its room name
+type c20Chat struct {
+	testpb.UnimplementedChatRoomServer
+	svc *c20Svc
+}
+
+func (c *c20Chat) Chat(st testpb.ChatRoom_ChatServer) error {
+	for {
+		m, err := st.Recv()
+		if err != nil {
+			return nil
+		}
+		c.svc.note("Chat", m)
+		if err := st.Send(&testpb.ChatMessage{Name: m.Name, Text: "echo " + m.Text}); err != nil {
+			return err
+		}
+	}
+}
+
 type c20Env struct {
 	mux *larking.Mux
 	svc *c20Svc
@@ -121,6 +140,9 @@ func c20Setup() *c20Env {
 	}
 	svc := &c20Svc{}
 	if err := m.VerifRegisterService(&testpb.Messaging_ServiceDesc, svc); err != nil {
+		panic(err)
+	}
+	if err := m.VerifRegisterService(&testpb.ChatRoom_ServiceDesc, &c20Chat{svc: svc}); err != nil {
 		panic(err)
 	}
 	c20env = &c20Env{mux: m, svc: svc}
